@@ -475,10 +475,14 @@ func (c *chroniclerV2) Write(treasures []treasure.Treasure) {
 			slog.Error("cannot write entry to swamp file",
 				"key", key,
 				"error", err)
-			// After a failed write the file may end in a torn block and the file
-			// position is unknown. Appending with the same writer would bury every
-			// later block behind the torn one, so give the writer up.
-			c.dropWriter()
+			// An entry the format cannot represent is refused before it reaches the
+			// buffer: nothing happened to the file. Anything else is an I/O error:
+			// the file may end in a torn block and the file position is unknown.
+			// Appending with the same writer would bury every later block behind the
+			// torn one, so give the writer up.
+			if !errors.Is(err, v2.ErrEmptyKey) && !errors.Is(err, v2.ErrKeyTooLong) && !errors.Is(err, v2.ErrDataTooLarge) {
+				c.dropWriter()
+			}
 			t.ReleaseTreasureGuard(guardID)
 			continue
 		}
